@@ -1,9 +1,12 @@
 import ZI.DeclModel
+import ZI.Props.C03
 /-! # C20 — declaration algebra: iteration, membership, + and − obey ordered-set laws
 
 Model: `ZI.Decl` — `_normalizeargs` over nested arguments (`Arg`), `interfaces` (ordered dedupe of the expansion of the
 bases; a class specification expands to its declared-then-inherited interfaces, `Expand`), `contains`, `sub`, `add`.
-`ext i j` is `i.extends(j, strict=False)` (C02: reachability over the current bases). -/
+`ext i j` is `i.extends(j, strict=False)` (C02: reachability over the current bases).  `flattened` is the declaration's
+resolution order (the C03 model `ZI.RO.sroFresh` on the specification graph the declaration sits in) restricted to
+interfaces. -/
 namespace ZI.Decl
 
 /-! ## ordered dedupe -/
@@ -284,6 +287,46 @@ theorem C20_add (ext : Id → Id → Bool) (A B : List Id) (hA : A.Nodup) :
     rcases p2 i (by rw [e2]; exact List.mem_append_right _ hi) with h | h
     · exact absurd h hiA
     · exact h x hx hne
+
+/-! ## flattened() -/
+open ZI.RO
+
+theorem before_filter {l : List Id} {p : Id → Bool} {x y : Id} (h : Before l x y) (hx : p x = true) (hy : p y = true) :
+    Before (l.filter p) x y := by
+  obtain ⟨l1, l2, rfl, hy2⟩ := h
+  refine ⟨l1.filter p, l2.filter p, ?_, List.mem_filter.mpr ⟨hy2, hy⟩⟩
+  simp [List.filter_append, hx]
+
+/-- **C20_flattened**: on every acyclic specification graph (consistent or not, duplicate base lists allowed) `A.flattened()` lists
+the interfaces of `A`'s resolution order, in that order: no duplicates, exactly the interfaces reachable from `A` (its
+interfaces plus everything they extend) and the root, every interface before each of its bases. -/
+theorem C20_flattened (bases : Bases) (rank : Id → Nat) (root c : Id) (isIface : Id → Bool) (fuel : Nat)
+    (ha : Acyclic bases rank) (hroot : bases root = []) (hf : rank c < fuel) :
+    (flattened bases root isIface fuel c).Sublist (sroFresh bases root fuel c) ∧
+    (flattened bases root isIface fuel c).Nodup ∧
+    (∀ t, t ∈ flattened bases root isIface fuel c ↔ (Reach bases c t ∨ t = root) ∧ isIface t = true) ∧
+    (∀ x ∈ flattened bases root isIface fuel c, ∀ b ∈ bases x, isIface b = true →
+      Before (flattened bases root isIface fuel c) x b) := by
+  have h := sroFresh_valid ha hroot fuel c hf
+  refine ⟨List.filter_sublist, h.nodup.filter _, fun t => ?_, fun x hx b hb hib => ?_⟩
+  · simp [flattened, List.mem_filter, h.mem t]
+  · have hx' := List.mem_filter.mp hx
+    exact before_filter (h.topo x hx'.1 b hb) hx'.2 hib
+
+/-- **C20_flattened_c3**: whenever the hierarchy (with the root under everything) has a C3 linearization, `flattened()` is
+that linearization restricted to interfaces. -/
+theorem C20_flattened_c3 (bases : Bases) (rank : Id → Nat) (root c : Id) (isIface : Id → Bool) (fuel : Nat) (l : List Id)
+    (ha : Acyclic bases rank) (hnd : NodupBases bases) (hroot : bases root = []) (hf : rank c + 1 < fuel)
+    (hl : lin (mirror bases root) fuel c = some l) :
+    flattened bases root isIface fuel c = l.filter isIface := by
+  have := sro_eq_c3 ha hnd hroot fuel c l (by split <;> omega) hl
+  simp [flattened, this]
+
+/-- non-vacuity, the legacy clause: X = 1, Y = 2, X2 = 3 (X), IBase = 4 (X, Y), ISub = 5 (IBase, X, X2) has no C3 order and gets
+its legacy order, which disagrees with IBase's about X and Y; `Declaration(ISub, IBase)` (node 9) then has no C3 order among
+its bases' orders either and flattens in ITS legacy order -/
+example : flattened (fun | 1 => [0] | 2 => [0] | 3 => [1] | 4 => [1, 2] | 5 => [4, 1, 3] | 9 => [5, 4] | _ => []) 0 (· < 9) 8 9
+    = [5, 3, 4, 1, 2, 0] := by decide
 
 /-- non-vacuity: `Declaration(IOther, IBase) + IDerived` puts the extender in front of everything -/
 example : add (fun i j => i == j || (i == 3 && j == 2)) [1, 2] [3] = [3, 1, 2] := by decide
